@@ -392,20 +392,64 @@ class EffectAnalysis:
         return muts, forces
 
     def _requires(self, node, fs):
-        """parameters of fs that must be `is not None` for `node` to run"""
+        """parameters of fs that must be `is not None` for `node` to run:
+        `if p is not None:` body, `if p is None: ... else:` orelse, and what
+        follows an `if p is None: <return/raise>` in the same block"""
+        names = fs.params + fs.kwonly
+
+        def none_test(t):
+            """(+1, p) for `p is not None`, (-1, p) for `p is None`"""
+            if isinstance(t, ast.Compare) and len(t.ops) == 1 \
+                    and isinstance(t.left, ast.Name) \
+                    and isinstance(t.comparators[0], ast.Constant) \
+                    and t.comparators[0].value is None \
+                    and t.left.id in names:
+                if isinstance(t.ops[0], (ast.IsNot, ast.NotEq)):
+                    return 1, t.left.id
+                if isinstance(t.ops[0], (ast.Is, ast.Eq)):
+                    return -1, t.left.id
+            return 0, None
+
+        def leaves(stmts):
+            if not stmts:
+                return False
+            last = stmts[-1]
+            if isinstance(last, (ast.Return, ast.Raise)):
+                return True
+            if isinstance(last, ast.If) and last.orelse:
+                return leaves(last.body) and leaves(last.orelse)
+            return False
+
+        def rebinds(pname, stmts):
+            return any(isinstance(n, ast.Name) and n.id == pname
+                       and isinstance(n.ctx, ast.Store)
+                       for st in stmts for n in ast.walk(st))
+
         req = []
         cur = getattr(node, "_parent", None)
         child = node
-        while cur is not None and cur is not fs.node:
-            if isinstance(cur, ast.If) and any(child is b for b in cur.body):
-                t = cur.test
-                if isinstance(t, ast.Compare) and len(t.ops) == 1 \
-                        and isinstance(t.ops[0], ast.IsNot) \
-                        and isinstance(t.left, ast.Name) \
-                        and isinstance(t.comparators[0], ast.Constant) \
-                        and t.comparators[0].value is None \
-                        and t.left.id in fs.params + fs.kwonly:
-                    req.append(t.left.id)
+        while cur is not None and child is not fs.node:
+            if isinstance(cur, (ast.If, ast.IfExp)):
+                pol, pname = none_test(cur.test)
+                body = cur.body if isinstance(cur.body, list) else [cur.body]
+                orelse = cur.orelse if isinstance(cur.orelse, list) \
+                    else [cur.orelse]
+                if pol == 1 and any(child is b for b in body):
+                    req.append(pname)
+                elif pol == -1 and any(child is b for b in orelse):
+                    req.append(pname)
+            for field in ("body", "orelse", "finalbody"):
+                seq = getattr(cur, field, None)
+                if isinstance(seq, list) and any(child is x for x in seq):
+                    i = [k for k, x in enumerate(seq) if x is child][0]
+                    for prev in seq[:i]:
+                        if isinstance(prev, ast.If) and not prev.orelse:
+                            pol, pname = none_test(prev.test)
+                            if pol == -1 and leaves(prev.body) \
+                                    and not rebinds(pname, seq[:i]):
+                                req.append(pname)
+            if cur is fs.node:
+                break
             child = cur
             cur = getattr(cur, "_parent", None)
         return req
